@@ -479,7 +479,16 @@ class Interp:
             self.ctx.globals[gkey] = v
             return v
         if isinstance(r, tuple) and r[0] == "ext":
-            return self.ext_module(r[1])
+            dotted = r[1]
+            if "." in dotted:
+                base, attr = dotted.rsplit(".", 1)
+                from . import builtins_model as bm
+
+                try:
+                    return bm.ext_attr(self, PModule(base), attr, None)
+                except Unsupported:
+                    pass
+            return self.ext_module(dotted)
         raise Unsupported(f"cannot wrap {r!r}")
 
     def ext_module(self, dotted):
